@@ -23,6 +23,7 @@ import (
 	"flag"
 	"fmt"
 	"io"
+	"net"
 	"os"
 	"os/exec"
 	"runtime"
@@ -528,7 +529,7 @@ func process(cs Case, o outcome) {
 			rep.Count("wrote-memory")
 		}
 	}
-	if o.res != nil && modelled[cs.Fn] {
+	if o.res != nil && modelled[cs.Fn] && cs.State != "sock" { // (the Lean footprint model knows files and directories, not sockets)
 		compareModel(cs, o.res, img)
 	}
 }
@@ -584,7 +585,7 @@ func main() {
 	defer orc.Close()
 	rep = hx.NewReport("C15", "all exported functions of the instantiated wasi_snapshot_preview1 host module x argument tuples "+
 		"(base tuples; every parameter over its boundary set one at a time; pairwise products of pointer/length/fd boundary sets "+
-		"(all pairs in the thorough tier); seeded random tuples) x descriptor-table states {bare, preopen+file+dir, with a hole} "+
+		"(all pairs in the thorough tier); seeded random tuples) x descriptor-table states {bare, preopen+file+dir, with a hole, listener+accepted connection} "+
 		"x memory images {zero, structured iovecs/subscriptions/paths, 0xff, seeded random}; both engines for base/single/random cases; "+
 		"direct descriptor.Table op sequences vs the Lean table model; distinct = distinct (function, args, state, image, engine)")
 	setupOracle()
@@ -610,6 +611,13 @@ func main() {
 		rep.Note("finding switch F15: poll_oneoff variant tied to the code = %s", v)
 		if a := orc.Askf("c15 variant %s", v); a != "ok" {
 			hx.Fatal("oracle variant: %s", a)
+		}
+		if l, err := net.Listen("tcp", "127.0.0.1:0"); err == nil {
+			l.Close()
+			sockStateOK = true
+		} else {
+			rep.Count("state-sock:skipped-no-loopback")
+			rep.Note("descriptor-table state `sock` skipped: cannot bind a loopback port (%v)", err)
 		}
 		for _, f := range specs {
 			if *onlyFn != "" && f.name != *onlyFn {
@@ -660,7 +668,9 @@ func replayCases(path string) []Case {
 		hx.Fatal("replay: %v", err)
 	}
 	var rp struct {
-		Impl   []struct{ Input json.RawMessage `json:"input"` } `json:"impl_violations"`
+		Impl []struct {
+			Input json.RawMessage `json:"input"`
+		} `json:"impl_violations"`
 		Broken []struct {
 			Detail json.RawMessage `json:"detail"`
 		} `json:"broken"`
@@ -676,7 +686,9 @@ func replayCases(path string) []Case {
 		}
 	}
 	for _, b := range rp.Broken {
-		var d struct{ Input Case `json:"input"` }
+		var d struct {
+			Input Case `json:"input"`
+		}
 		if json.Unmarshal(b.Detail, &d) == nil && d.Input.Fn != "" {
 			cs = append(cs, d.Input)
 		}
